@@ -122,8 +122,12 @@ impl Runner {
                 self.ops.push(op.clone());
                 let dpre = self.w.digest();
                 let dh = op["dh"].as_u64().unwrap_or(1);
-                let dt = op["dt"].as_u64().unwrap_or(15);
-                self.w.advance(dh, dt);
+                let dt0 = op["dt"].as_u64().unwrap_or(15);
+                let dns = op["dns"].as_u64().unwrap_or(0);
+                let t_before = self.w.app.block_info().time.seconds();
+                self.w.advance(dh, dt0, dns);
+                // whole seconds actually elapsed (sub-second parts may carry)
+                let dt = self.w.app.block_info().time.seconds() - t_before;
                 self.w.rec.borrow_mut().begin_tx(0);
                 self.w.rec.borrow_mut().end_tx();
                 self.push(
